@@ -7,25 +7,36 @@ V = "/verif"
 k = json.load(open(V + "/known_findings.json"))["findings"]
 only = set(sys.argv[1:])
 res = {}
+import glob as _glob, threading, queue
+pool = [d for d in sorted(_glob.glob("/tmp/ve/[0-9]*")) if os.path.isdir(d)] or [V]
+jobs = queue.Queue()
 for f in k:
     if f["status"] != "fixed":
         continue
     if only and f["id"] not in only and f["property"] not in only:
         continue
+    jobs.put(f)
+lock = threading.Lock()
+
+
+def one(f, clone):
     short = f["commit"][:8]
     cands = glob.glob("%s/regress/F*-%s.head.diff" % (V, short)) or glob.glob("%s/regress/F*-%s.diff" % (V, short))
     if not cands:
-        res[f["id"]] = dict(property=f["property"], error="no patch"); continue
+        return dict(property=f["property"], error="no patch")
     patch = cands[0]
     wt = "/tmp/rg-%s" % f["id"]
     subprocess.run(["git", "-C", "/repo", "worktree", "remove", "--force", wt], capture_output=True)
-    subprocess.run(["git", "-C", "/repo", "worktree", "add", "-q", "--detach", wt, "HEAD"], check=True)
+    for a in range(10):
+        if subprocess.run(["git", "-C", "/repo", "worktree", "add", "-q", "--detach", wt, "HEAD"], capture_output=True).returncode == 0:
+            break
+        time.sleep(1 + a)
     try:
         a = subprocess.run(["git", "-C", wt, "apply", patch], capture_output=True, text=True)
         if a.returncode != 0:
-            res[f["id"]] = dict(property=f["property"], patch=os.path.basename(patch), error="patch does not apply: " + a.stderr[-200:]); continue
+            return dict(property=f["property"], patch=os.path.basename(patch), error="patch does not apply: " + a.stderr[-200:])
         t0 = time.time()
-        p = subprocess.run([V + "/check", f["property"]], cwd=V, env=dict(os.environ, WTF_REPO=wt), capture_output=True, text=True, timeout=3600)
+        p = subprocess.run([clone + "/check", f["property"]], cwd=clone, env=dict(os.environ, WTF_REPO=wt), capture_output=True, text=True, timeout=3600)
         lines = [l for l in p.stdout.split("\n") if l.startswith(("VIOLATION", "OK ", "KNOWN"))]
         what = None
         for l in lines:
@@ -33,11 +44,27 @@ for f in k:
                 rp = l.split("replay=")[1].split()[0]
                 if os.path.exists(rp):
                     r = json.load(open(rp)); what = dict(kind=r.get("kind"), what=str(r.get("what"))[:240])
-        res[f["id"]] = dict(property=f["property"], patch=os.path.basename(patch), exit=p.returncode, lines=lines, replay=what, wall_s=round(time.time() - t0, 1),
-                            caught=p.returncode == 1, with_input=bool(what and what["kind"] == "impl-counterexample"))
-        print(f["id"], f["property"], "CAUGHT" if p.returncode == 1 else "MISSED", (what or {}).get("what", "")[:140], flush=True)
+        with lock:
+            print(f["id"], f["property"], "CAUGHT" if p.returncode == 1 else "MISSED", (what or {}).get("kind"), (what or {}).get("what", "")[:120], flush=True)
+        return dict(property=f["property"], patch=os.path.basename(patch), exit=p.returncode, lines=[l.replace(clone, V) for l in lines], replay=what, wall_s=round(time.time() - t0, 1),
+                    caught=p.returncode == 1, with_input=bool(what and what["kind"] == "impl-counterexample"))
     finally:
         subprocess.run(["git", "-C", "/repo", "worktree", "remove", "--force", wt], capture_output=True)
+
+
+def work(clone):
+    while True:
+        try:
+            f = jobs.get_nowait()
+        except queue.Empty:
+            return
+        r = one(f, clone)
+        with lock:
+            res[f["id"]] = r
+
+
+ts = [threading.Thread(target=work, args=(c,)) for c in pool]
+[t.start() for t in ts]; [t.join() for t in ts]
 out = V + "/regress/RESULTS.json"
 old = json.load(open(out)) if os.path.exists(out) else {}
 old.update(res)
